@@ -1256,6 +1256,17 @@ func (m *Machine) external(fn *ssa.Function) externalFn {
 	}
 	name := fn.String()
 	e := externals[name]
+	if repl, ok := m.cfg.Stubs[name]; ok {
+		// harness-provided replacement of a function outside the engine's reach
+		i := strings.LastIndex(repl, ".")
+		rf := m.P.FuncByName(repl[:i], repl[i+1:])
+		if rf == nil {
+			panic(fmt.Sprintf("stub %s: replacement %s not found", name, repl))
+		}
+		e = func(m *Machine, fr *frame, args []value) value {
+			return m.call(fr, token.NoPos, rf, args)
+		}
+	}
 	if e == nil && fn.Origin() != nil {
 		e = externals[fn.Origin().String()]
 	}
